@@ -22,6 +22,10 @@ type c14Case struct {
 	Hold     int        `json:"hold"`
 	Out      bool       `json:"out"`
 	Caps     []wire.Cap `json:"caps"`
+	// Prev: earlier sessions of the same peer (outbound: the same FSM object), each
+	// with its own remote hold time: the OPEN of the connection under test must
+	// read as if they had never happened
+	Prev []world.PrevSession `json:"prev,omitempty"`
 }
 
 // c14Expect computes the capability list the OPEN must carry and whether it
@@ -142,34 +146,11 @@ func c14WireProp(t *testing.T, r *hx.Run) func(c c14Case) hx.Verdict {
 		p := world.PeerSpec{Remote: "10.0.0.2", LocalAS: c.LocalAS, RemoteAS: 64513, Passive: !c.Out, Hold: c.Hold,
 			Plugin: world.PluginSpec{Caps: c.Caps, NoNonce: true}}
 		var dev *hx.Dev
-		var serr error
-		o := world.Run(t, func() {
-			w, err := world.New(c.RouterID, nil)
-			if err != nil {
-				serr = err
-				return
-			}
-			if c.Out {
-				w.Net.SetPlans(p.RemoteAddr(), memnet.DialPlan{Kind: memnet.Accept}, memnet.DialPlan{Kind: memnet.Refuse})
-			}
-			if err := w.AddPeer(p); err != nil {
-				serr = err
-				return
-			}
-			w.Serve()
-			w.Settle()
-			var conn *memnet.Conn
-			if c.Out {
-				conn = w.DialedConn(p.Remote, 0)
-			} else {
-				conn = w.Inbound(p.Remote, "10.0.0.1")
-				w.Settle()
-			}
-			if conn == nil {
-				dev = hx.Devf("setup", "no connection")
-				w.Finish()
-				return
-			}
+		prev := c.Prev
+		if !rep {
+			prev = nil // no OPEN is sent at all: there are no earlier sessions
+		}
+		o, serr := world.SinglePrev(t, c.RouterID, p, c.Out, nil, prev, func(w *world.World, conn *memnet.Conn) {
 			st := conn.Snapshot()
 			msgs, perr := wire.ParseStream(st.Bytes())
 			switch {
@@ -198,7 +179,6 @@ func c14WireProp(t *testing.T, r *hx.Run) func(c c14Case) hx.Verdict {
 					dev = d
 				}
 			}
-			w.Finish()
 		})
 		if serr != nil && dev == nil {
 			dev = hx.Devf("setup", "%v", serr)
@@ -248,6 +228,11 @@ func genC14(rt *rapid.T) c14Case {
 		c.Caps = append(c.Caps, cp)
 		if code != 65 {
 			total += 2 + vl
+		}
+	}
+	if rapid.IntRange(0, 2).Draw(rt, "withprev") == 0 {
+		for i, n := 0, rapid.IntRange(1, 2).Draw(rt, "nprev"); i < n; i++ {
+			c.Prev = append(c.Prev, world.PrevSession{Hold: pick[uint16](rt, "prevhold", 0, 3, 30, 180), End: pick(rt, "prevend", "fin", "cease")})
 		}
 	}
 	return c
